@@ -577,16 +577,17 @@ Definition no_0x88_keyb (t : triangle) : bool := forallb (no88_cellb (pool_of t)
 Definition no_0x88_key (t : triangle) : Prop := no_0x88_keyb t = true.
 
 (* ================================================================== compression dispatch *)
-(* triangle_to_binary / binary_to_triangle : which flavour is written / read.  The extension
-   only produces warnings on the write side; on the read side `if not compress:` sends both
-   None and False to extension inference. *)
+(* triangle_to_binary / binary_to_triangle : which flavour is written / read.  The extension only
+   produces warnings when `compress` is given explicitly (True or False are both honoured, on the
+   write and on the read side); `compress=None` on the read side infers the flavour from the
+   extension and refuses (ValueError) an unknown one. *)
 Inductive ext := ExtTrib | ExtTribc | ExtOther.
 Definition conventional_ext (compress : bool) : ext := if compress then ExtTribc else ExtTrib.
 Definition write_flavour (compress : bool) (e : ext) : bool := compress.
 Definition read_flavour (compress : option bool) (e : ext) : result bool :=
   match compress with
-  | Some true => ROk true
-  | _ => match e with ExtTrib => ROk false | ExtTribc => ROk true | ExtOther => RErr EValue end
+  | Some c => ROk c
+  | None => match e with ExtTrib => ROk false | ExtTribc => ROk true | ExtOther => RErr EValue end
   end.
 
 (* result comparison helpers used by the generated correspondence cases *)
